@@ -94,7 +94,7 @@ def main():
     if pathlib.Path(patch).resolve() != (d / 'patch.diff').resolve():
         shutil.copy(patch, d / 'patch.diff')
     text = pathlib.Path(demo_src).read_text()
-    text = re.sub(r'''(['"])/tmp/mut-C\d+\1''', '__import__("os").environ.get("DESPER_REPO", "/repo")', text)
+    text = re.sub(r'''(['"])/tmp/mut2?-C\d+\1''', '__import__("os").environ.get("DESPER_REPO", "/repo")', text)
     (d / 'demo.py').write_text(text)
     (d / 'meta.json').write_text(json.dumps(meta, indent=1))
     print(json.dumps({k: meta[k] for k in ('property', 'confirmed', 'tests_with_patch', 'demo_with_patch',
